@@ -387,9 +387,7 @@ def r12_3(run):
                 early = [k_ for k_ in ki.pit_early_writes if k_[0] == pit]
                 if early:
                     ok, why = False, "column %s is written before the template" % early[0][3]
-                width = "branch_cols-1" if pit == "branch_pit" else "node_cols-3"
-                if width not in tmpl.replace(" ", ""):
-                    ok, why = False, "row template does not span all columns: %s" % tmpl
+                # (the width of the template is not examined: numpy broadcasts the value over all columns of the rows or raises)
             run.ob("%s.%s|rows-initialised-first" % (c.name, h), ok,
                    "the rows of %s in the %s are set to a full row template before any of their columns is written" % (c.name, pit),
                    run.where(f, f.node), detail=why)
